@@ -4,10 +4,14 @@ C08 helper lemmas, part 5: `agree` — on well-formed types the rule interpreter
 using the unfolding lemmas of parts 1–3).
 -/
 import Verif.Proofs.SubAgree
+import Verif.Proofs.SubStruct
+import Verif.Proofs.SubUnfoldS
+import Verif.Proofs.SubUnfoldC
+import Verif.Proofs.SubUnfoldN
+import Verif.Proofs.SubUnfoldF
+import Verif.Proofs.SubUnfoldP
 namespace Verif.Proofs.SubUnfold
 open Verif.Model.Types Verif.Model.Types.Struct Verif.Model.Auth
-
-theorem size_pos (t : Ty) : 1 ≤ t.size := by cases t <;> simp [Ty.size] <;> omega
 
 theorem fld_param (t : Ty) : field (.param t) "Type" = .ty t := rfl
 
@@ -22,12 +26,6 @@ theorem evalPred_param (k : Nat) (env : Env) (a b : Ty) :
   unfold paramPred
   rw [evalPred, e2, e1]
   simp only [subVal]
-
-theorem subParams_nil_nil : subParams .nilT .nilT = true := by simp [subParams]
-theorem subParams_cons_cons (t r t' r' : Ty) :
-    subParams (.consT t r) (.consT t' r') = (Struct.sub t t' && subParams r r') := by simp [subParams]
-theorem subParams_nil_cons (t r : Ty) : subParams .nilT (.consT t r) = false := by simp [subParams]
-theorem subParams_cons_nil (t r : Ty) : subParams (.consT t r) .nilT = false := by simp [subParams]
 
 /-- the `forAll` over the parameter lists of two function types is `subParams` (super's parameters first) -/
 theorem forAll_params (s : Nat) (env : Env)
@@ -64,12 +62,6 @@ theorem forAll_params (s : Nat) (env : Env)
 
 theorem nonprim_sub (a : Ty) (hnp : NonPrim a) (p : String) : Struct.sub a (.prim p) = chkPrim a p := by
   rw [sub_def, chk_prim, np_ne a hnp, np_never a hnp]; rfl
-
-theorem prim_or_not (a : Ty) : (∃ x, a = .prim x) ∨ NonPrim a := by
-  cases a <;> first | exact Or.inl ⟨_, rfl⟩ | exact Or.inr (fun _ h => by cases h)
-
-theorem fn_or_not (a : Ty) : (∃ v p r, a = .fn v p r) ∨ ∀ v p r, a ≠ .fn v p r := by
-  cases a <;> first | exact Or.inl ⟨_, _, _, rfl⟩ | exact Or.inr (fun _ _ _ h => by cases h)
 
 /-- discharges the fuel side conditions of `agree` -/
 macro "fuel_ok" : tactic => `(tactic| (simp only [fuelFor, Ty.size] at *; omega))
